@@ -200,7 +200,7 @@ fn source_label(s: usize) -> &'static str {
 pub fn run(args: &Args, rec: &mut Recorder) {
     rec.rule = "evaluation = one IF_DATA block: for a generated A2ML definition (named/anonymous/referenced types, 10 scalar types, arrays, char[n], enums with and without values, repeated tagged items, inner repetition, blocks, depth <= 4) conforming instances (a quarter of them with comments in front of, between and behind their tokens) must be flagged valid and single-token deviations (wrong token kind, unknown tag, unknown enum item, surplus token, integer out of range) must load, be flagged invalid and be kept as data; in both cases the written text must hold exactly the input tokens (values and integer notation); ifdata_cleanup() must remove exactly the invalid blocks. The definition is supplied in the file, as built-in specification, or both (equal / conflicting). distinct_nontrivial = distinct (definition, instance) texts by content hash".into();
     rec.assumptions.push("conformance holds by construction of the instance generator (globally unique tags and enum items make it unambiguous); multiplicity of non-repeating tagged items and strings longer than char[n] are not judged".into());
-    let n_defs: u64 = if args.thorough { 200_000 } else { 2_000 };
+    let n_defs: u64 = if args.thorough { 200_000 } else { 8_000 };
     run_cases(args, rec, n_defs, crate::util::reset_budget, |rng, case, rec| {
         let def = gen_def(rng);
         let def_text = render_def(&def, rng);
